@@ -327,6 +327,19 @@ pub fn compare(imp: &str, model: &str, p: &Proj) -> Option<(String, bool)> {
         // replies means "the model reported this step as unknown".
         let timed = a.len() > 14 && !a[13].contains('=');
         if (!timed && a[11] != "255" && b[11] == "255") || (timed && extra(&b, "io=") == Some("1") && a[14] != b[14]) {
+            // ... except where the behaviour of the real part is common knowledge (Spec.undocED: mirrors of NEG, RETN,
+            // IM n and two-byte no-operations on the ED page): then "executed as the instruction it encodes" can be
+            // judged after all, on everything but the T-states and the diagnostic text
+            if let Some(alt) = extra(&b, "alt=") {
+                let alt_line = alt.replace('_', " ");
+                let c: Vec<&str> = alt_line.split(' ').collect();
+                let q = Proj { cyc: false, dbg: 0, latch: false, slice: false, mode: Mode::Plain, ..*p };
+                if c.len() >= 13 {
+                    if let Some(w) = compare_r(&a, &c, &q) {
+                        return Some((format!("an encoding the pinned tree reports as unknown is executed, but not as the instruction it stands for: {}", w), false));
+                    }
+                }
+            }
             return Some(("\u{0}unjudged".into(), false));
         }
         match p.mode {
@@ -353,7 +366,9 @@ pub fn compare(imp: &str, model: &str, p: &Proj) -> Option<(String, bool)> {
                 }
                 if let Some(zt) = extra(&b, "zt=") {
                     if zt != "-" && zt != a[11] {
-                        return Some((format!("T-states {} but Zilog publishes {}", a[11], zt), true));
+                        // the encoding that was executed names the finding, whatever case reached it
+                        let row = extra(&b, "row=").map(|r| format!(" [row {}]", r)).unwrap_or_default();
+                        return Some((format!("T-states {} but Zilog publishes {}{}", a[11], zt, row), true));
                     }
                 }
                 if a[11] != b[11] {
@@ -580,14 +595,18 @@ pub fn run_chunk(drv: &str, tmpdir: &str, cases: &[Case]) -> Stats {
                         st.oracle_count += 1;
                     }
                     reported = true;
-                    let known = oracle && is_known(&c.key);
+                    let mkey = match (what.find("[row "), what.rfind(']')) {
+                        (Some(i), Some(j)) if j > i + 5 => what[i + 5..j].to_string(),
+                        _ => c.key.clone(),
+                    };
+                    let known = oracle && is_known(&mkey);
                     if known {
                         st.known_count += 1;
                     }
                     if st.mismatches.len() < cap() && (!known || st.known_count <= 8) {
                         st.mismatches.push(Mismatch {
                             tag: c.tag.clone(),
-                            key: c.key.clone(),
+                            key: mkey.clone(),
                             script: script(),
                             line_no: ln - 1,
                             cmd: line.clone(),
